@@ -11,105 +11,9 @@ verus! {
 //@include prelude/er.rs
 //@source yui/src/types/lc/lc.rs
 
-impl ER {
-    #[verifier::external_body] pub fn add_assign<B: ERL>(&mut self, b: B) ensures (*final(self)).v() == radd((*old(self)).v(), b.v()) { unimplemented!() }
-}
-
-// ---------------------------------------------------------------- models
-/// a generator (hashable key); Clone / Eq / Hash are TRUSTED to respect the identity k
-pub struct GenK { pub k: Ghost<int> }
-impl GenK {
-    #[verifier::external_body] pub fn clone(&self) -> (r: GenK) ensures r.k@ == self.k@ { unimplemented!() }
-}
-/// es lists every entry of m exactly once (iteration order arbitrary)
-pub open spec fn entries_of(es: Seq<(int, int)>, m: Map<int, int>) -> bool {
-    &&& forall|i: int| 0 <= i < es.len() ==> m.dom().contains(#[trigger] es[i].0) && m[es[i].0] == es[i].1
-    &&& forall|i: int, j: int| 0 <= i < j < es.len() ==> #[trigger] es[i].0 != #[trigger] es[j].0
-    &&& forall|k: int| m.dom().contains(k) ==> exists|i: int| 0 <= i < es.len() && #[trigger] es[i].0 == k
-}
-/// key k is among the first n entries
-pub open spec fn seen(es: Seq<(int, int)>, n: int, k: int) -> bool { exists|j: int| 0 <= j < n && j < es.len() && #[trigger] es[j].0 == k }
-
-/// AHashMap<X, R>: ASSUMED contract of the hash map (finite map key id -> coefficient id)
-/// `ord`: the order in which the map would be iterated in its current state (arbitrary, changes under mutation)
-pub struct AMap { pub m: Ghost<Map<int, int>>, pub ord: Ghost<Seq<(int, int)>> }
-pub struct MapIter<'a> { pub src: &'a AMap, pub es: Ghost<Seq<(int, int)>>, pub pos: Ghost<int> }
-impl<'a> MapIter<'a> {
-    pub fn into_iter(self) -> (r: Self) ensures r == self { self }
-    #[verifier::external_body] pub fn next(&mut self) -> (r: Option<(&'a GenK, &'a ER)>)
-        requires 0 <= old(self).pos@ <= old(self).es@.len()
-        ensures final(self).es@ == old(self).es@, final(self).src == old(self).src,
-            old(self).pos@ < old(self).es@.len() ==> (final(self).pos@ == old(self).pos@ + 1 && r.is_some()
-                && r.unwrap().0.k@ == old(self).es@[old(self).pos@].0 && r.unwrap().1.v() == old(self).es@[old(self).pos@].1),
-            old(self).pos@ >= old(self).es@.len() ==> (final(self).pos@ == old(self).pos@ && r.is_none()),
-    { unimplemented!() }
-}
-impl AMap {
-    pub open spec fn at(&self, k: int) -> int { if self.m@.dom().contains(k) { self.m@[k] } else { r0() } }
-    #[verifier::external_body] pub fn contains_key(&self, x: &GenK) -> (r: bool) ensures r == self.m@.dom().contains(x.k@) { unimplemented!() }
-    #[verifier::external_body] pub fn get(&self, x: &GenK) -> (r: Option<&ER>)
-        ensures r.is_some() == self.m@.dom().contains(x.k@), r.is_some() ==> r.unwrap().v() == self.m@[x.k@] { unimplemented!() }
-    #[verifier::external_body] pub fn get_mut(&mut self, x: &GenK) -> (r: Option<&mut ER>)
-        ensures r.is_some() == old(self).m@.dom().contains(x.k@),
-            r.is_some() ==> (r.unwrap().v() == old(self).m@[x.k@] && final(self).m@ == old(self).m@.insert(x.k@, (*final(r.unwrap())).v())),
-            r.is_none() ==> final(self).m@ == old(self).m@,
-    { unimplemented!() }
-    #[verifier::external_body] pub fn insert(&mut self, x: GenK, r: ER) -> (o: Option<ER>)
-        ensures final(self).m@ == old(self).m@.insert(x.k@, r.v()) { unimplemented!() }
-    #[verifier::external_body] pub fn len(&self) -> (r: usize) ensures self.m@.dom().finite(), r == self.m@.dom().len() { unimplemented!() }
-    #[verifier::external_body] pub fn is_empty(&self) -> (r: bool) ensures r == (self.m@.dom() =~= Set::<int>::empty()) { unimplemented!() }
-    #[verifier::external_body] pub fn reserve(&mut self, n: usize) ensures final(self).m@ == old(self).m@ { unimplemented!() }
-    #[verifier::external_body] pub fn iter(&self) -> (r: MapIter<'_>) ensures r.pos@ == 0, r.es@ == self.ord@, entries_of(r.es@, self.m@), r.src == self { unimplemented!() }
-}
-
-/// an owning iterator of (generator, coefficient) pairs (model of `T: IntoIterator<Item = (X, R)>`)
-pub struct PairIter { pub items: Ghost<Seq<(int, int)>>, pub pos: Ghost<int> }
-impl PairIter {
-    pub fn into_iter(self) -> (r: Self) ensures r == self { self }
-    #[verifier::external_body] pub fn next(&mut self) -> (r: Option<(GenK, ER)>)
-        requires 0 <= old(self).pos@ <= old(self).items@.len()
-        ensures final(self).items@ == old(self).items@,
-            old(self).pos@ < old(self).items@.len() ==> (final(self).pos@ == old(self).pos@ + 1 && r.is_some()
-                && r.unwrap().0.k@ == old(self).items@[old(self).pos@].0 && r.unwrap().1.v() == old(self).items@[old(self).pos@].1),
-            old(self).pos@ >= old(self).items@.len() ==> (final(self).pos@ == old(self).pos@ && r.is_none()),
-    { unimplemented!() }
-}
-/// the coefficient of k in the formal sum  sum_i  s[i].1 * s[i].0   (terms added left to right)
-pub open spec fn acc(s: Seq<(int, int)>, k: int) -> int decreases s.len() {
-    if s.len() == 0 { r0() } else { let t = acc(s.drop_last(), k); if s.last().0 == k { radd(t, s.last().1) } else { t } }
-}
-/// the generator map of `combine` (x_map), as a function on identities
-pub uninterp spec fn xm(a: int, b: int) -> int;
-/// coefficient of k in  base + sum_{j<n} (r * eb[j].1) xm(x, eb[j].0)
-pub open spec fn isum(base: int, x: int, r: int, eb: Seq<(int, int)>, n: int, k: int) -> int decreases n {
-    if n <= 0 { base } else {
-        let t = isum(base, x, r, eb, n - 1, k);
-        if xm(x, eb[n - 1].0) == k { radd(t, rmul(r, eb[n - 1].1)) } else { t }
-    }
-}
-/// coefficient of k in  sum_{i<m} sum_j (ea[i].1 * eb[j].1) xm(ea[i].0, eb[j].0)   — the bilinear extension of xm
-pub open spec fn dsum(ea: Seq<(int, int)>, m: int, eb: Seq<(int, int)>, k: int) -> int decreases m {
-    if m <= 0 { r0() } else { isum(dsum(ea, m - 1, eb, k), ea[m - 1].0, ea[m - 1].1, eb, eb.len() as int, k) }
-}
-
-//@item struct/Lc subst=AHashMap<X,R>:AMap,R:ER
+//@include units/lc/model.inc
 
 impl Lc {
-    pub open spec fn at(&self, k: int) -> int { self.data.at(k) }
-    /// representation invariant: no stored zero coefficient (and the cached zero is zero)
-    pub open spec fn nz(&self) -> bool { forall|k: int| self.data.m@.dom().contains(k) ==> self.data.m@[k] != r0() }
-    pub open spec fn wf(&self) -> bool { self.r_zero.v() == r0() }
-
-    /// ASSUMED (AHashMap::with_hasher, R::zero): the empty combination
-    #[verifier::external_body] pub fn new() -> (r: Lc) ensures r.wf(), r.data.m@ =~= Map::<int, int>::empty() { unimplemented!() }
-    /// ASSUMED (AHashMap::retain with closure |_, r| !r.is_zero()): drops exactly the zero entries
-    #[verifier::external_body] pub fn clean(&mut self)
-        ensures final(self).r_zero == old(self).r_zero, final(self).nz(),
-            forall|k: int| final(self).data.m@.dom().contains(k) <==> (old(self).data.m@.dom().contains(k) && old(self).data.m@[k] != r0()),
-            forall|k: int| final(self).data.m@.dom().contains(k) ==> final(self).data.m@[k] == old(self).data.m@[k],
-            forall|k: int| final(self).at(k) == old(self).at(k),   // (consequence of the two lines above, stated for the trigger)
-    { unimplemented!() }
-
     pub fn zero() -> (r: Lc) ensures r.wf(), r.nz(), forall|k: int| r.at(k) == r0(), r.data.m@ =~= Map::<int, int>::empty(),
     //@body impl/Zero@Lc/zero
 
@@ -269,6 +173,15 @@ impl Lc {
     //@|     forall|k: int| res.at(k) == isum(dsum(self.data.ord@, __it0.pos@ - 1, other.data.ord@, k), x.k@, r.v(), other.data.ord@, __it1.pos@, k),
     //@| ensures __it1.pos@ == __it1.es@.len(),
     //@| decreases __it1.es@.len() - __it1.pos@,
+
+    /// Mul for &Lc (X: Gen + Mul): the bilinear extension of the generator product
+    pub fn mul(&self, rhs: &Lc) -> (res: Lc)
+        requires self.data.m@.dom().len() * rhs.data.m@.dom().len() <= usize::MAX,
+        ensures res.nz(), res.wf(),
+            forall|k: int| res.at(k) == dsum(self.data.ord@, self.data.ord@.len() as int, rhs.data.ord@, k),
+    //@body impl/Mul@&Lc/mul ring=1 q=clone qname=g
+    //@+ closure 0
+    //@| -> (out: GenK) ensures out.k@ == xm(x.k@, y.k@)
 
 } // impl Lc
 
